@@ -40,7 +40,7 @@ def make_cases(ctx, cid, en, mode=None):
         negs = sorted(set([-1, -2, lo, lo + 1, lo + 2, lo + 3, lo + top, lo | top, -top, -top - 1, -(top << 1)] + [-v for _, v in decl if v > 0]
                           + [v for _, v in decl if v < 0] + [v | w for _, v in decl if v < 0 for _, w in decl if w > 0]))
         negs = [v for v in negs if lo <= v < 0]
-    main = {"id": cid, "en": en, "decl": decl, "files": lay["files"], "mode": lay["mode"],
+    main = {"id": cid, "en": en, "decl": decl, "files": lay["files"], "mode": lay["mode"] + ("+spread" if lay["spread"] and lay["mode"].startswith("file") else ""),
             "runs": [{"args": ["enum", "-bit"] + lay["sel"]}],
             "oracle": {".": enumgen.oracle_c14(en, decl, hi, negs)},
             "sexp": enumgen.case_sexp(cid, "c14", en, [["hi", str(hi)], ["neg"] + [str(v) for v in negs]]), "cmd": "shoot enum -bit " + " ".join(lay["sel"]),
@@ -176,7 +176,7 @@ def replay(ctx, payload):
     if not en:
         print(payload.get("case") or payload)
         return 0
-    pair = make_cases(ctx, "replay", en, mode=payload.get("mode"))
+    pair = make_cases(ctx, "replay", en, mode=((payload.get("mode") or "").split("+")[0] or None))
     for fn, src in pair[0]["files"].items():
         print("---- %s\n%s" % (fn, src))
     cases, impl, model = run_cases(ctx, [pair])
